@@ -185,6 +185,12 @@ theorem bindCommit_ok {t : State} (hf : NoFault t) (pod : Pod) (ns name : String
     · exact h2 h
   simp [this]
 
+/-- without an injected fault the crash plan never fires: the binding call is the plain `bindCommit` -/
+theorem bindCommitX_nofault {t : State} (hf : NoFault t) (pod : Pod) (ns name : String) (uid : Nat) (node : String)
+    (ips : List IP) : bindCommitX t pod ns name uid node ips = bindCommit t pod ns name uid node ips := by
+  unfold bindCommitX
+  simp [api_ok hf]
+
 /-! ### Bind, unfolded once -/
 
 /-- the UID guard of `allocateIP` ("waiting for delete event of … before reuse this ip") -/
@@ -214,7 +220,7 @@ theorem bind_eq (F : Facts) (t : State) (ns name : String) (uid : Nat) (node : S
       | .ok =>
         match (bindLoop A.1 (keyOf pod) node { policy := policyOf pod, node := node, uid := pod.uid }
             (infos.filterMap id) (A.2.2.filterMap id)).2 with
-        | .ok => bindCommit (bindLoop A.1 (keyOf pod) node { policy := policyOf pod, node := node, uid := pod.uid }
+        | .ok => bindCommitX (bindLoop A.1 (keyOf pod) node { policy := policyOf pod, node := node, uid := pod.uid }
             (infos.filterMap id) (A.2.2.filterMap id)).1 pod ns name uid node (A.2.2.filterMap id)
         | e => ((bindLoop A.1 (keyOf pod) node { policy := policyOf pod, node := node, uid := pod.uid }
             (infos.filterMap id) (A.2.2.filterMap id)).1, { res := e }) := by
